@@ -881,6 +881,8 @@ class _Norm(ast.NodeTransformer):
 
 
 def normalise(tree: ast.Module) -> ast.Module:
+    from .dispatch import expand_table_dispatch
+    expand_table_dispatch(tree)                  # N23
     prev = None
     for _ in range(5):                       # one form can complete the pattern of another: run to the fixed point
         tree = _Norm().visit(tree)
